@@ -336,6 +336,16 @@ def geometry_clause(model, rep, funcs):
         ok = dom.prove_ge_form(g)
         rep.ob("A", f.anchor, f"axis {i}: the mesh spans at most +-max_shifts", True if ok else (None if ok is None else False),
                "" if ok else f"half-span {span!r}", node=f.node, fn=f, clause="3 geometry", stmt=f"def _build_mesh #span{i}")
+        # ... and not less than the permitted range minus one mesh step: the landscape must contain the displacement that alignment may report
+        g2 = dom.add(dom.add(span, q.step), dom.neg(m.items[i]))
+        ok2 = dom.prove_ge_form(g2)
+        det2 = ""
+        if not ok2:
+            w2 = dom.find_witness(g2, (), tol=Fraction(1, 1000))
+            ok2, det2 = (False, f"for {w2[0]} the landscape stops {-w2[1]:.3f} px short of max_shifts although alignment searches the whole range (half-span "
+                                f"{span!r})"[:500]) if w2 is not None else (None, f"half-span {span!r}")
+        rep.ob("A", f.anchor, f"axis {i}: the mesh reaches +-max_shifts to within one mesh step", True if ok2 else ok2, det2, node=f.node, fn=f,
+               clause="3 geometry", stmt=f"def _build_mesh #cover{i}")
 
 
 def model_funcs(model, anchors):
